@@ -300,6 +300,12 @@ def make_files(args):
                 xdump = {'roots': [conv(r) for r in rec['logical']['roots']]}
                 # BrickColor values are written as <int> (what rbx_xml itself and Studio do); see DESIGN.md C05
                 opts = {'brickcolor_as_int': True, 'font_cached_null': 'omit'}
+                if k == 1:
+                    # the second document of a case also uses freedoms the text leaves open and another writer might use:
+                    # upper-case hex digits in a UniqueId ("hexadecimal-encoded", no case prescribed) and the pre-645 <Content>
+                    # element for ContentId values (described in the document as the historical spelling)
+                    opts['hex_upper'] = True
+                    opts['legacy_content'] = True
                 try:
                     text = refxml.encode(xdump, rng, opts)
                 except refxml.RefError:
